@@ -84,7 +84,7 @@ func miDecEvent(id string, draft string, digest string, stream []byte, max uint6
 			return
 		}
 		buf := make([]byte, dst)
-		eofs := 0
+		eofs, errs := 0, 0
 		for i := 0; i < len(stream)+8 && eofs < 2; i++ {
 			n, err := dec.Read(buf)
 			res := "nil"
@@ -96,7 +96,11 @@ func miDecEvent(id string, draft string, digest string, stream []byte, max uint6
 			}
 			reads = append(reads, miRead{N: dst, Data: ints(buf[:n]), Res: res})
 			if res == "err" {
-				break
+				// a consumer that keeps reading after an error must still never be handed unauthenticated bytes
+				errs++
+				if errs > 3 {
+					break
+				}
 			}
 		}
 	}()
